@@ -91,6 +91,8 @@ type hOp struct {
 	Node   int      `json:"n,omitempty"`  // fault: node
 	Mode   string   `json:"m,omitempty"`  // fault: "" down get set del (error replies); rstdown rstget rstset rstdel (the connection is closed without a reply, every attempt); rst1down rst1get rst1set rst1del (the same for ONE command: the client's re-send goes through)
 	Filt   string   `json:"f,omitempty"`  // fault: "" p i (key class the fault applies to)
+	Txt    int      `json:"tx,omitempty"` // fault / conc with gf: which error reply the failing commands get (index into cache.C06Texts: ERR, WRONGTYPE, LOADING, BUSY, NOAUTH, MOVED, ASK, CLUSTERDOWN, READONLY, OOM, TRYAGAIN, MISCONF, NOPERM, max clients, MASTERDOWN)
+	WT     bool     `json:"wt,omitempty"` // garbage: the foreign writer leaves a value of ANOTHER TYPE (a hash) under the key: the server itself answers GET with WRONGTYPE
 	XF     bool     `json:"xf,omitempty"` // write: the database statement fails (the Exec callback returns an error, the database is unchanged)
 	Bad    bool     `json:"bad,omitempty"` // setcache: a value that JSON cannot encode (+Inf): unspecified, run for panics only
 	Ws     []hW     `json:"ws,omitempty"` // cwrite: writers running at the same time (no reader runs meanwhile)
@@ -161,7 +163,8 @@ type hCase struct {
 	Ctor    string `json:"ctor"` // node | conf (single node through NewNodeConn or NewConn) | ctype (cluster-type redis: one node through NewNodeConn, several through NewConn with Type=cluster entries) | cconf (cluster-type redis, always through NewConn)
 	Expire  int    `json:"e"`    // seconds
 	NFExp   int    `json:"nfe"`  // seconds
-	PKKind  string   `json:"pkk,omitempty"` // "" / int: int64 primary keys (PKs), str: string primary keys (SPKs)
+	PKKind  string   `json:"pkk,omitempty"` // "" / int: int64 primary keys (PKs), str: string primary keys (SPKs), u64: unsigned primary keys (UPKs: 2^53+-1, 2^63-1, 2^63, 2^63+1, neighbours above 2^63 that share one float64, MaxUint64)
+	UPKs    []uint64 `json:"upk,omitempty"`
 	PKs     []int64  `json:"pk,omitempty"`  // primary key VALUE of each of the 6 rows (default 0..5)
 	SPKs    []string `json:"spk,omitempty"`
 	IdxNames []string `json:"ixn,omitempty"` // NAME of each of the 4 index values inside its cache key (default "0".."3"); "~L<n>": n bytes, "~X": bytes that are not UTF-8
@@ -180,6 +183,7 @@ type hRow struct {
 	ID  int    // row number 0..5 (harness bookkeeping)
 	PK  int64  // primary key value (int kind)
 	SPK string // primary key value (str kind)
+	UPK uint64 // primary key value (u64 kind)
 	Idx int
 	Val int
 	Big int64
@@ -215,6 +219,9 @@ func (r *hRun) pkText(id int) string {
 	if r.c.PKKind == "str" {
 		return r.c.SPKs[id]
 	}
+	if r.c.PKKind == "u64" {
+		return strconv.FormatUint(r.c.UPKs[id], 10)
+	}
 	return strconv.FormatInt(r.c.PKs[id], 10)
 }
 
@@ -222,6 +229,9 @@ func (r *hRun) pkText(id int) string {
 func (r *hRun) pkValue(id int) any {
 	if r.c.PKKind == "str" {
 		return r.c.SPKs[id]
+	}
+	if r.c.PKKind == "u64" {
+		return r.c.UPKs[id]
 	}
 	return r.c.PKs[id]
 }
@@ -264,6 +274,7 @@ type hRun struct {
 	dirty   map[string]bool
 	keyNode map[string]int
 	invalid map[string]bool // key was cached when a write named it
+	wrong   map[string]int  // key -> node: a foreign writer left a value of another type there (GET answers WRONGTYPE until a write removes it)
 	tasksF  []*hTask        // statement model
 	tasksI  []*hTask        // defect hypothesis (inverted reschedule condition)
 
@@ -334,7 +345,7 @@ func short(s string) string {
 
 // String keeps failure messages readable when the payload is long.
 func (row hRow) String() string {
-	return fmt.Sprintf("{ID:%d PK:%d SPK:%s Idx:%d Val:%d Big:%d U:%d F:%v S:%s}", row.ID, row.PK, short(row.SPK), row.Idx, row.Val, row.Big, row.U, row.F, short(row.S))
+	return fmt.Sprintf("{ID:%d PK:%d UPK:%d SPK:%s Idx:%d Val:%d Big:%d U:%d F:%v S:%s}", row.ID, row.PK, row.UPK, short(row.SPK), row.Idx, row.Val, row.Big, row.U, row.F, short(row.S))
 }
 
 func (r *hRun) failf(format string, a ...any) {
@@ -612,8 +623,10 @@ func (r *hRun) absorb(fromIndexRead, background bool) (b hBatch, dels []string) 
 			r.classes["connection-reset-attempts"] = true
 		}
 		for _, e := range entries {
-			if e.Reset {
+			if e.Reset && e.Err == "" {
 				r.classes["call-failed-by-connection-resets"] = true
+			} else if e.Reset {
+				r.classes["call-failed-after-resends-of-a-retryable-error-reply"] = true
 			}
 			for _, k := range e.Keys {
 				if n, ok := r.keyNode[k]; ok && n != si {
@@ -624,10 +637,16 @@ func (r *hRun) absorb(fromIndexRead, background bool) (b hBatch, dels []string) 
 			if background && e.Cmd != "DEL" {
 				r.failf("background command %s %v on node %d while no operation was running", e.Cmd, e.Keys, si)
 			}
+			if e.Failed && e.Err != "" {
+				r.classes["error-reply-"+strings.ToLower(strings.Fields(e.Err)[0])] = true
+			}
 			switch e.Cmd {
 			case "GET":
 				if e.Failed {
 					b.getFailed[e.Keys[0]] = true
+					if e.Real {
+						r.classes["get-of-a-key-of-another-type"] = true
+					}
 				}
 			case "SETEX":
 				if e.Failed {
@@ -663,6 +682,7 @@ func (r *hRun) absorb(fromIndexRead, background bool) (b hBatch, dels []string) 
 				if e.Secs <= 0 {
 					continue // refused by the server: nothing stored
 				}
+				delete(r.wrong, k)
 				if e.Val == "*" {
 					r.ph[k] = r.serverNow + e.Secs
 					delete(r.cached, k)
@@ -694,6 +714,7 @@ func (r *hRun) absorb(fromIndexRead, background bool) (b hBatch, dels []string) 
 					delete(r.ph, k)
 					delete(r.cached, k)
 					delete(r.dirty, k)
+					delete(r.wrong, k)
 				}
 			}
 		}
@@ -985,6 +1006,15 @@ func (r *hRun) doReadIndex(what string, idx int) {
 // budget clears the fault of every node that could exceed the number of
 // injected failures the circuit breaker of its redis client tolerates.
 func (r *hRun) budget(worst func(si int) int) {
+	for k, si := range r.wrong {
+		// every read of such a key is one more failure for the circuit breaker:
+		// the foreign writer takes its value away before the budget is used up
+		if s := r.srvs[si]; s.Injected()+r.clientFails[si]+worst(si) > c06MaxInjected-1 {
+			s.M.Del(k)
+			delete(r.wrong, k)
+			r.classes["fault-budget-exhausted"] = true
+		}
+	}
 	for si, s := range r.srvs {
 		if s.Fault() != "" && s.Injected()+r.clientFails[si]+worst(si) > c06MaxInjected {
 			s.SetFault("", "")
@@ -1131,9 +1161,13 @@ func (r *hRun) doWrite(what string, o hOp, del bool) {
 		} else {
 			r.ver++
 			row := hRow{ID: o.ID, Idx: o.Idx, Val: r.ver}
-			if r.c.PKKind == "str" {
+			switch r.c.PKKind {
+			case "str":
 				row.SPK = r.c.SPKs[o.ID]
-			} else {
+			case "u64":
+				row.UPK = r.c.UPKs[o.ID]
+				r.classes["unsigned-primary-keys"] = true
+			default:
 				row.PK = r.c.PKs[o.ID]
 			}
 			c06Payload(&row, o.Pay)
@@ -1209,6 +1243,17 @@ func (r *hRun) doGarbage(o hOp) {
 		g := o.G
 		if g < 0 {
 			g = -g
+		}
+		if o.WT {
+			// a value of another type: written to the server directly, as another program would
+			r.srvs[si].M.Del(k)
+			r.srvs[si].M.HSet(k, "field", "value")
+			r.srvs[si].M.SetTTL(k, time.Hour)
+			delete(r.ph, k)
+			delete(r.cached, k)
+			r.wrong[k] = si
+			r.classes["key-of-another-type"] = true
+			continue
 		}
 		val := c06Garbage[g%len(c06Garbage)]
 		if strings.HasPrefix(k, "i") {
@@ -1471,7 +1516,7 @@ func (r *hRun) doCWrite(what string, o hOp) {
 				defer r.mu.Unlock()
 				old := r.db[j.w.ID]
 				r.ver++
-				row := hRow{ID: j.w.ID, PK: old.PK, SPK: old.SPK, Idx: old.Idx, Val: r.ver}
+				row := hRow{ID: j.w.ID, PK: old.PK, SPK: old.SPK, UPK: old.UPK, Idx: old.Idx, Val: r.ver}
 				c06Payload(&row, j.w.Pay)
 				r.db[j.w.ID] = row
 				return nil, nil
@@ -1623,7 +1668,7 @@ func (r *hRun) doConc(what string, o hOp) {
 			return
 		}
 	}
-	if r.anyTaskAlive() || len(o.Offs) == 0 {
+	if r.anyTaskAlive() || len(o.Offs) == 0 || len(r.wrong) > 0 {
 		r.classes["conc-skipped"] = true
 		return
 	}
@@ -1653,7 +1698,7 @@ func (r *hRun) doConc(what string, o hOp) {
 				o.Offs[i] = 0
 			}
 			for _, s := range r.srvs {
-				s.SetFault("slowget", "")
+				s.SetFaultText("slowget", "", cache.C06Text(o.Txt, true)) // never a reply the client re-sends after
 			}
 		}
 	}
@@ -1767,7 +1812,7 @@ func (r *hRun) doConc(what string, o hOp) {
 
 func c06HistInterp(t *testing.T, c hCase) (v kit.Verdict) {
 	r := &hRun{t: t, c: c, db: map[int]hRow{}, ph: map[string]int{}, cached: map[string]int{}, dirty: map[string]bool{},
-		keyNode: map[string]int{}, invalid: map[string]bool{}, priCalls: map[int]int{}, idxCalls: map[int]int{},
+		keyNode: map[string]int{}, invalid: map[string]bool{}, wrong: map[string]int{}, priCalls: map[int]int{}, idxCalls: map[int]int{},
 		active: map[string]int{}, classes: map[string]bool{}, opLimit: 2e9, clientFails: map[int]int{}}
 	if c.PKKind == "" && len(c.PKs) == 0 {
 		c.PKs = []int64{0, 1, 2, 3, 4, 5}
@@ -1790,7 +1835,8 @@ func c06HistInterp(t *testing.T, c hCase) (v kit.Verdict) {
 	}
 	seen := map[string]bool{}
 	for id := 0; id < c06NIDs; id++ {
-		if (c.PKKind == "str" && len(c.SPKs) != c06NIDs) || (c.PKKind != "str" && len(c.PKs) != c06NIDs) || seen[r.pkText(id)] {
+		if (c.PKKind == "str" && len(c.SPKs) != c06NIDs) || (c.PKKind == "u64" && len(c.UPKs) != c06NIDs) ||
+			(c.PKKind != "str" && c.PKKind != "u64" && len(c.PKs) != c06NIDs) || seen[r.pkText(id)] {
 			return kit.Verdict{Excluded: true}
 		}
 		seen[r.pkText(id)] = true
@@ -1815,7 +1861,7 @@ func c06HistInterp(t *testing.T, c hCase) (v kit.Verdict) {
 		return kit.Verdict{Excluded: true}
 	}
 	for _, o := range c.Ops {
-		if o.K == "fault" && strings.HasPrefix(o.Mode, "rst") && !c.clusterType() {
+		if o.K == "fault" && o.Mode != "" && !c.clusterType() && (strings.HasPrefix(o.Mode, "rst") || cache.C06Retryable(cache.C06Text(o.Txt, false))) {
 			// connection resets make the client back off for up to 88 ms of virtual
 			// time per failed call: keep every operation clear of the wheel's ticks
 			c.OffMs = 150 + c.OffMs%450
@@ -1981,6 +2027,7 @@ func c06HistInterp(t *testing.T, c hCase) (v kit.Verdict) {
 				for _, s := range r.srvs {
 					quiet = quiet && s.Fault() == ""
 				}
+				quiet = quiet && len(r.wrong) == 0
 				for j := 0; quiet && j < o.D && j < 20000 && r.fail == ""; j++ {
 					r.doRead(fmt.Sprintf("%s read %d", what, j), j%c06NIDs)
 					r.opStart = cache.C06RealNow()
@@ -2022,7 +2069,7 @@ func c06HistInterp(t *testing.T, c hCase) (v kit.Verdict) {
 					}
 					switch mode {
 					case "", "down", "get", "set", "del", "rstdown", "rstget", "rstset", "rstdel", "rst1down", "rst1get", "rst1set", "rst1del":
-						r.srvs[o.Node].SetFault(mode, o.Filt)
+						r.srvs[o.Node].SetFaultText(mode, o.Filt, cache.C06Text(o.Txt, c.clusterType()))
 						if mode != "" {
 							r.classes["fault-"+mode] = true
 						}
@@ -2065,6 +2112,15 @@ func c06HistInterp(t *testing.T, c hCase) (v kit.Verdict) {
 		}
 		// every node is up and every retry instant has passed: nothing may be stale any more
 		r.dirty = map[string]bool{}
+		r.budget(func(si int) int { // keys of another type fail two epilogue reads each
+			n := 0
+			for _, x := range r.wrong {
+				if x == si {
+					n += 2
+				}
+			}
+			return n
+		})
 		for id := 0; id < c06NIDs && r.fail == ""; id++ {
 			r.opStart = cache.C06RealNow()
 			r.cur = id % len(r.ccs)
@@ -2121,7 +2177,14 @@ func c06HistGen(rt *rapid.T) hCase {
 	// primary key VALUES are part of the case: small, around 2^21 (where %v of a
 	// float64 switches to exponent form), around 2^53, near the int64 limits,
 	// negative, arbitrary; or strings that need escaping / look like numbers
-	if rapid.IntRange(0, 3).Draw(rt, "strkeys") == 0 {
+	if kind := rapid.IntRange(0, 5).Draw(rt, "strkeys"); kind == 5 {
+		// unsigned primary keys (hash / snowflake style ids): beyond the int64 range, with
+		// neighbours that share one float64, and the small / 2^53 region for contrast
+		c.PKKind = "u64"
+		pool := []uint64{0, 1, 7, 1<<53 - 1, 1 << 53, 1<<53 + 1, 1<<63 - 1, 1 << 63, 1<<63 + 1, 1<<63 + 5, 1<<63 + 1024, 1<<63 + 1025, 1<<63 + 2048,
+			9223372036854775813, 12345678901234567890, 12345678901234567891, math.MaxUint64, math.MaxUint64 - 1, math.MaxUint64 - 2047}
+		c.UPKs = rapid.SliceOfNDistinct(rapid.OneOf(rapid.SampledFrom(pool), rapid.SampledFrom(pool), rapid.Uint64Min(1<<63)), c06NIDs, c06NIDs, rapid.ID[uint64]).Draw(rt, "upk")
+	} else if kind == 0 {
 		c.PKKind = "str"
 		pool := []string{"a", "B b", `q"x`, `back\slash`, "日本", "12", "1e3", "9007199254740993", "true", "null", "x:y", "ü", "*", "tab\there", "<k>&", "🎉"}
 		for _, i := range rapid.SliceOfNDistinct(rapid.IntRange(0, len(pool)-1), c06NIDs, c06NIDs, rapid.ID[int]).Draw(rt, "spk") {
@@ -2294,6 +2357,7 @@ func c06HistGen(rt *rapid.T) hCase {
 			o = hOp{K: "readidx", Idx: rows[id]}
 		case "garbage":
 			o.G = rapid.IntRange(0, 7).Draw(rt, "garbage")
+			o.WT = rapid.IntRange(0, 2).Draw(rt, "wrongtype") == 0
 			if rapid.Bool().Draw(rt, "primary") {
 				o.Keys = []string{fmt.Sprintf("p%d", pickID())}
 			} else {
@@ -2369,6 +2433,9 @@ func c06HistGen(rt *rapid.T) hCase {
 			o.ViaIdx = rapid.IntRange(0, 2).Draw(rt, "viaidx") == 0
 			o.Lat = rapid.IntRange(1, 400).Draw(rt, "lat")
 			o.GF = rapid.IntRange(0, 3).Draw(rt, "getfault") == 0
+			if o.GF && rapid.Bool().Draw(rt, "gftext") {
+				o.Txt = rapid.IntRange(0, len(cache.C06Texts)-1).Draw(rt, "text")
+			}
 			nr := rapid.IntRange(2, 6).Draw(rt, "readers")
 			for j := 0; j < nr; j++ {
 				o.Offs = append(o.Offs, rapid.IntRange(0, 450).Draw(rt, "offs"))
@@ -2391,6 +2458,9 @@ func c06HistGen(rt *rapid.T) hCase {
 				o.Mode = rapid.SampledFrom([]string{"down", "get", "set", "set", "del", "del", "del",
 					"rstdown", "rstget", "rstset", "rstdel", "rstdel", "rst1down", "rst1get", "rst1del"}).Draw(rt, "mode")
 				o.Filt = rapid.SampledFrom([]string{"", "", "p", "i"}).Draw(rt, "filt")
+				if rapid.IntRange(0, 2).Draw(rt, "othertext") != 0 {
+					o.Txt = rapid.IntRange(0, len(cache.C06Texts)-1).Draw(rt, "text")
+				}
 			}
 			faulty = o.Mode != ""
 		}
